@@ -31,6 +31,7 @@ def run(ctx):
     guard_table(ctx)
     binop(ctx)
     coalesce(ctx)
+    traversal(ctx)
 
 
 def fnv(ctx, name):
@@ -319,3 +320,33 @@ def coalesce(ctx):
             ins = [n for n in ix.nodes if n.get("k") == "mcall" and n["name"] == "insert" and show(n["recv"]) == "by_value"]
             ok = ok and len(ins) == 1 and show(ins[0]["args"][1]) == "ii" and len(ix.regions[id(ins[0])]) == len(ix.regions[id(ix.enclosing(ins[0], ("for",)))]) + 1
     ctx.inst("R20.5", "coalesce_entries:merge", ok, f["span"], "coalescing must OR the earlier entry's CURRENT guard (read from entries[prev] when merging) with the later entry's guard, store it in the later entry, delete the earlier one and remember the later index: %s" % why, sample=why)
+
+
+def traversal(ctx):
+    """the traversal used by expr_to_guard hands f exactly the values of the children it scheduled"""
+    ctx.rule("R20.6", "bottom_up_multi_pat(_mut) takes from the value stack exactly as many values as children were scheduled for the node (the count recorded when they were pushed), never the node's static child count")
+    for name in ("bottom_up_multi_pat", "bottom_up_multi_pat_mut"):
+        f = ctx.fn("patronus", "patronus::expr::traversal::" + name)
+        ix = Index(f["body"])
+        defs = local_defs(f)
+        # the slice handed to f and the truncate use one local count
+        sl = [n for n in ix.nodes if n.get("k") == "index" and "stack" in show(n["e"]) and "RangeFrom" in show(n["i"])]
+        tr = [n for n in ix.nodes if n.get("k") == "mcall" and n["name"] == "truncate" and "stack" in show(n["recv"])]
+        ok = len(sl) == 1 and len(tr) == 1
+        why = "expected one stack slice and one truncate"
+        if ok:
+            cnt = [x for x in walk(sl[0]["i"]) if x.get("k") == "local" and x["name"] != "stack"]
+            cnt2 = [x for x in walk(tr[0]["args"][0]) if x.get("k") == "local" and x["name"] != "stack"]
+            ok = len(cnt) == 1 and len(cnt2) == 1 and cnt[0]["id"] == cnt2[0]["id"]
+            why = "slice and truncate use different counts"
+            if ok:
+                init = simple_let_init(defs, cnt[0]["id"])
+                static = init is not None and any(x.get("k") == "mcall" and x["name"] == "num_children" for x in walk(init))
+                # provenance: derives from the popped todo entry's recorded count
+                loop = ix.enclosing(sl[0], ("while",))
+                popped = [i for _, i in pat_bindings(peel(loop["cond"])["pat"])] if loop is not None and peel(loop["cond"]).get("k") == "letexpr" else []
+                from_entry = init is not None and any(x.get("k") == "local" and x["id"] in popped for x in walk(init))
+                pushes = [n for n in ix.nodes if n.get("k") == "mcall" and n["name"] == "push" and "todo" in show(n["recv"]) and "child_vec.len()" in show(n["args"][0]).replace(" ", "")]
+                ok = (not static) and from_entry and len(pushes) == 1
+                why = "the number of values taken is `%s`%s" % (show(init)[:60] if init is not None else "?", " (the node's static child count, although get_children may have returned fewer)" if static else "")
+        ctx.inst("R20.6", "%s:values-of-visited-children-only" % name, ok, f["span"], "%s: %s - for a node whose children were (partly) not visited the values of other nodes are consumed or the stack index underflows" % (name, why), sample=why)
